@@ -4,6 +4,7 @@ import engine as E
 import zcklib as Z
 from props import filegen as FG
 from props import dlgen as DG
+from props import updgen as UG
 from props import c05 as C05
 
 PROP = 'C17'
@@ -140,6 +141,11 @@ def gen_cases(tier, seed, ctx):
             # (d) boundary header but a plain body, and a multipart body without a boundary header
             add('mismatch/plain-body-with-boundary', t, flags, limit, hdrs, B[ranges[0][0]:ranges[0][1] + 1], '-', 'clear')
             add('mismatch/multipart-body-without-boundary', t, flags, limit, ['HTTP/1.1 206\r\n'.encode()], body, 'b7' if small else 'b4099', 'clear')
+    # histories on one download context: a response that stops in the middle, zck_dl_reset, the target descriptor moved by a
+    # re-scan, then a complete response (what a retrying client does): nothing outside the requested extents may change
+    W = UG.Writer(ctx)
+    for op, kind in UG.drop_cases(rnd, W, tier, 40 if tier == 'quick' else 400):
+        cases.append(E.Case('k%d' % len(cases), op, dict(kind='history/' + kind)))
     return cases
 
 def nontrivial(r):
@@ -152,7 +158,8 @@ def run(tier, seed, replay=None):
             "that are empty, a lone quote, regex metacharacters and unbalanced brackets, format directives, 300/3000/5000 characters, non-ASCII, "
             "in header lines with missing CR, no line end, embedded NUL, repeated; (c) the single-range path with the same body mutants; "
             "(d) header/body kind mismatches.  Fragmentations: whole, 16 KiB, 1-3 byte pieces, random cuts, with empty fragments; transport "
-            "modes stop / continue / continue after zck_clear_error.  Judged: no crash/sanitizer report/hang, no use of an uncompiled or freed "
+            "modes stop / continue / continue after zck_clear_error; histories on one context (a response cut short, zck_dl_reset, re-scan, a "
+            "complete response: UPDATE with a dropped transfer).  Judged: no crash/sanitizer report/hang, no use of an uncompiled or freed "
             "pattern (tracked in the interposed regcomp/regexec/regfree), confinement and verified-valid on the target file.")
     return E.standard_run(PROP, MODULES, gen_cases, tier, seed, replay, ASSUMPTIONS, rule, variant='asan', nontrivial=nontrivial,
                           timeout_s=60, project=C05.project)
